@@ -25,7 +25,7 @@ LEVEL = 'exploration'
 SHARDS = {'quick': 16, 'thorough': 16}
 FLOOR = {'quick': 800, 'thorough': 3000}
 REQUIRED_MONITORS = {'sites-checked': 1200, 'opt-outs-checked': 150}
-RULE = ('a case = (site kind, wrapper, hostile value, neighbours); 24 site kinds {element text, "attr", \'attr\', two '
+RULE = ('a case = (site kind, wrapper, hostile value, neighbours); 27 site kinds {element text, "attr", \'attr\', two '
         'interpolations in one attribute, tal:attributes onto new / "static" / \'static\' attribute, dictionary attribute value, '
         'comment, tal:content, tal:replace, string: in content, string: in attribute, ${} inside i18n:translate, i18n:name '
         'block, message object with hostile translation, i18n:attributes value} x 6 wrappers x 30 hostile values (each of & < > '
@@ -104,6 +104,9 @@ SITES = {
     'text': ('<p>' + A + '${v}' + B + '</p>', 'text'),
     'dq-attr': ('<p a="' + A + '${v}' + B + '">t</p>', ('attr', 'a', '"')),
     'sq-attr': ("<p a='" + A + '${v}' + B + "'>t</p>", ('attr', 'a', "'")),
+    'dq-attr-after-sq-attr': ("<p z='s' y=u a=\"" + A + '${v}' + B + '">t</p>', ('attr', 'a', '"')),
+    'sq-attr-after-dq-attr': ('<p z="s" a=\'' + A + '${v}' + B + "'>t</p>", ('attr', 'a', "'")),
+    'tal-attr-new-after-sq-attr': ("<p z='s' tal:attributes=\"a v\">t</p>", ('attr-whole', 'a', '"')),
     'two-in-attr': ('<p a="' + A + '${v}' + B + '${v}">t</p>', ('attr', 'a', '"')),
     'tal-attr-new': ('<p tal:attributes="a \'' + A + '\' + str_of(v) + \'' + B + '\'">t</p>', ('attr', 'a', '"')),
     'tal-attr-dq-static': ('<p a="s" tal:attributes="a \'' + A + '\' + str_of(v) + \'' + B + '\'">t</p>', ('attr', 'a', '"')),
@@ -140,6 +143,8 @@ WRAPPERS = {
     'condition': '<div tal:condition="True" tal:omit-tag="">%s</div>',
     'macro': '<div metal:define-macro="m">[<i metal:define-slot="s">d</i>]</div><div metal:use-macro="template.macros[\'m\']"><u metal:fill-slot="s">%s</u></div>',
     'on-error': '<div tal:on-error="string:ERR">%s</div>',
+    'after-cdata': '<script><![CDATA[ var a = 1 < 2 && b; ]]></script><!-- plain comment -->%s',
+    'interpolation-toggled': '<div meta:interpolation="false">${off}</div><div meta:interpolation="true">%s</div>',
 }
 OPTOUTS = {
     'structure-kw': ('<p tal:content="structure v">x</p>', 'xml'),
